@@ -38,6 +38,20 @@ KOP_BAD = [0, 11, -1, 255]
 CLAIM_REG = [-260, -259, -258, -257, 0, 8, 9, 38, 39, 40]
 CLAIM_PRIV = [-65537, -100000]
 CLAIM_BAD = [10, 11, 37, 41, -1, -256, -261, -65536, 65536]
+# the palettes follow the registries the crate has NOW (regenerated tables): see tools/tables.py
+import tables as _tb
+def _resplit(reg, lists, with_private=False):
+    allv = [v for l in lists for v in l]
+    good = [v for v in allv if _tb.registered(reg, v)]
+    priv = [v for v in allv if not _tb.registered(reg, v) and with_private and _tb.private(reg, v)]
+    bad = [v for v in allv if not _tb.registered(reg, v) and not (with_private and _tb.private(reg, v))]
+    return good, priv, bad
+ALG_REG, ALG_PRIV, ALG_BAD = _resplit("Algorithm", [ALG_REG, ALG_PRIV, ALG_BAD], True)
+HP_REG, _x, HP_BAD = _resplit("HeaderParameter", [HP_REG, HP_BAD])
+CF_REG, _x, CF_BAD = _resplit("CoapContentFormat", [CF_REG, CF_BAD])
+KTY_REG, _x, KTY_BAD = _resplit("KeyType", [KTY_REG, [v for v in KTY_BAD if v != 0]]); KTY_BAD = [0] + KTY_BAD; KTY_REG = [v for v in KTY_REG if v != 0]
+KOP_REG, _x, KOP_BAD = _resplit("KeyOperation", [KOP_REG, KOP_BAD])
+CLAIM_REG, CLAIM_PRIV, CLAIM_BAD = _resplit("CwtClaimName", [CLAIM_REG, CLAIM_PRIV, CLAIM_BAD], True)
 TEXT_LABELS = ['', 'a', 'alg', 'kid', 'b', 'aa', 'é', 'x' * 23, 'x' * 24, 'y' * 255, 'z' * 256]
 OTHER_HDR_LABELS = [0, 8, 9, 10, 32, 33, 34, 35, 256, 257, -1, -2, -3, -6, -65536, -65537, 2**63 - 1, -2**63,
                     23, 24, 255, 65535, 65536, 2**32]
